@@ -4,7 +4,7 @@
 (*   body ("sized","chunked","large","slice","refusal","empty","other:n"), sized (Content-Length present), *)
 (*   vals (tracked name -> values), err]; a "reset" line starts a sequence.                                 *)
 (* The specification's Exchange(k) gives what the exchange must put on the wire; each way must show it, and *)
-(* the three ways must agree on every tracked header value.                                                  *)
+(* the ways (a fourth, "piped", when recorded) must agree on every tracked header value.                     *)
 EXTENDS Tunnel, Json, IOUtils
 CONSTANTS TraceFile
 TraceLog == ndJsonDeserialize(TraceFile)
@@ -30,7 +30,11 @@ TExchange == /\ Is("x") /\ Exchange(Line.k)
              /\ l' = l + 1
              /\ Note(WayCats(Line.shared, "shared") \cup WayCats(Line.own, "own") \cup WayCats(Line.plain, "plain")
                      \cup (IF Agree(Line.shared, Line.plain) THEN {} ELSE {"shared_differs_from_plain"})
-                     \cup (IF Agree(Line.own, Line.plain) THEN {} ELSE {"own_differs_from_plain"}))
+                     \cup (IF Agree(Line.own, Line.plain) THEN {} ELSE {"own_differs_from_plain"})
+                     \* the same exchanges pipelined over one tunnel (all requests written before the first answer is read)
+                     \cup (IF "piped" \notin DOMAIN Line \/ Line.piped.err = "skipped" THEN {}
+                           ELSE WayCats(Line.piped, "piped")
+                                \cup (IF Agree(Line.piped, Line.plain) THEN {} ELSE {"piped_differs_from_plain"})))
 TraceInit == Init /\ l = 1 /\ bads = <<>> /\ TLCSet(1, [l |-> 1, bads |-> <<>>])
 TraceNext == TReset \/ TExchange
 TraceSpec == TraceInit /\ [][TraceNext]_tvars
